@@ -212,12 +212,15 @@ def vpKey (n : String) : Key := ⟨.burn .vpNonce, n⟩
 
 def burnAll (st : Store) (ns : List String) : Store := ns.foldl (fun s n => stErase s (vpKey n)) st
 
+/-- `len(errs)` after the loop: extraction errors, "not all presentations have the same nonce", "presentation is missing nonce" -/
+def nonceErrs (a : NAcc) : Nat :=
+  a.errs + (if a.nonces.length > 1 then 1 else 0) + (if !a.allPresent then 1 else 0)
+
 /-- openid4vp.go validatePresentationNonce -/
 def validateNonce (c : Sq) (st : Store) (ps : List Pres) (state : String) : Ans × Store :=
   let E := errAt Facts.C05.errs_validatePresentationNonce
   let a := collect ps
-  let errs := a.errs + (if a.nonces.length > 1 then 1 else 0) + (if !a.allPresent then 1 else 0)
-  if errs > 0 then (E 0, burnAll st a.nonces)
+  if nonceErrs a > 0 then (E 0, burnAll st a.nonces)
   else
     match a.nonces with
     | [] => (.panic "validatePresentationNonce:nonces[0]", st)     -- only for an empty presentation list (the caller refuses it)
